@@ -76,6 +76,7 @@ type Store struct {
 	parallel bool
 	mu       sync.Mutex
 
+	onLoad  func(c cid.Cid)  // called at the start of every block read (schedule replay)
 	targets []cid.Cid        // the pre-existing entry targets (putTargets)
 	lastLS  *ipld.LinkSystem // the link system the latest build on this store went through (build variants)
 
@@ -180,6 +181,9 @@ func (s *Store) LinkSystem() *ipld.LinkSystem {
 		cl, ok := l.(cidlink.Link)
 		if !ok {
 			return nil, fmt.Errorf("not a cid link")
+		}
+		if f := s.onLoad; f != nil {
+			f(cl.Cid) // schedule replay: a reader may be parked here, inside the load, before the store sees it
 		}
 		if s.parallel {
 			s.mu.Lock()
